@@ -26,6 +26,12 @@ What is proved (all inputs, no bounds):
                          DISJOINT supports for two 32-bit inputs with equal outputs (found by this analysis,
                          reproduced on the real code, fixed in /repo); `mod_new_mask_sufficient` for the fix.
 
+  * `np_trunc_mask_parameter` / `np_trunc_old_mask_insufficient`, `pow_mask_total` / `pow_old_mask_small`,
+                         `to_bits_bin_perfect` / `to_bits_bin_short_mask_leaks`, `sincos_turns_mask`: the four sites
+                         found by the third defect hunt (fixed-point ARRAY truncation, public base ** secret exponent,
+                         to_bits over GF(2^n) with l < n, sincos): sufficiency of the repaired parameters and
+                         insufficiency (for to_bits: a leak for EVERY mask value) of the previous ones.
+
 `view_indistinguishable_partial` — NOT proved (kept as a comment, see the end of the file): the full statement of
 C18, that the joint view of a coalition in a whole program (all received shares and all opened values together)
 has statistical distance ≲ (number of openings) · c · C(m,t) · 2^-k for inputs with equal outputs.  Missing: a
@@ -301,6 +307,103 @@ theorem mod_new_mask_sufficient :
     modSite.span ⟨30, 32, 0, 3, 0⟩ * 2 ^ 30
       < 8 * 3 * maskBound (modSite.bound ⟨30, 32, 0, 3, 0⟩) 3 1 false :=
   Mask.mod_new_mask_sufficient
+
+/-! ### the four sites found by the third defect hunt (repo commits 3c924f8, be33b70, ccbb4b9, b17c81b) -/
+
+/-- `np_trunc` of a fixed-point ARRAY product: the double-scaled product has `l + f` bits, so the trunc site must
+be entered with `l + f`; then the requested bound is `2^(k+l)` and the table inequality holds … -/
+theorem np_trunc_mask_parameter (k l f : ℕ) :
+    truncSite.bound ⟨k, l + f, f, 0, 0⟩ = 2 ^ (k + l) ∧
+    2 * truncSite.span ⟨k, l + f, f, 0, 0⟩ * 2 ^ k ≤ truncSite.c * truncSite.bound ⟨k, l + f, f, 0, 0⟩ := by
+  refine ⟨?_, sites_table truncSite (by simp [sites]) _ (by simp [truncSite])⟩
+  simp only [truncSite]
+  congr 1
+  omega
+
+/-- … whereas the parameter the code used before repo commit 3c924f8 (`l` instead of `l + f`, because the test
+`issubclass(sftype, SecureFixedPoint)` is false for array types) requests `2^(k+l-f)`: too small by `2^f` for the
+span `2^l` of the values really truncated -/
+theorem np_trunc_old_mask_insufficient (k l f : ℕ) (hf : 1 ≤ f) (hfl : f ≤ l) :
+    truncSite.c * truncSite.bound ⟨k, l, f, 0, 0⟩ < 2 * truncSite.span ⟨k, l + f, f, 0, 0⟩ * 2 ^ k := by
+  simp only [truncSite]
+  have e1 : l + f - f = l := by omega
+  have e2 : k + l - f + f = k + l := by omega
+  rw [e1]
+  have h : 2 ^ (k + l - f) * 2 ^ f = 2 ^ (k + l) := by rw [← pow_add, e2]
+  have h2 : 2 ≤ 2 ^ f := by
+    calc 2 = 2 ^ 1 := by norm_num
+      _ ≤ 2 ^ f := Nat.pow_le_pow_right (by norm_num) hf
+  have h3 : (2 : ℕ) ^ (k + l) = 2 ^ l * 2 ^ k := by rw [pow_add, mul_comm]
+  have hpos : 0 < 2 ^ (k + l - f) := Nat.pos_of_ne_zero (pow_ne_zero _ (by norm_num))
+  nlinarith
+
+example : truncSite.c * truncSite.bound ⟨30, 16, 8, 0, 0⟩ < 2 * truncSite.span ⟨30, 16 + 8, 8, 0, 0⟩ * 2 ^ 30 :=
+  np_trunc_old_mask_insufficient 30 16 8 (by decide) (by decide)
+
+/-- public base ** secret exponent (`_np_pow_public_int_base_secret_integral_exponent`): each of the `t + 1`
+senders draws below `B = 2^(l+k) / (t+1)`; the masks together cover `2^(l+k)` up to `t` -/
+theorem pow_mask_total (l k t : ℕ) : 2 ^ (l + k) - t ≤ (t + 1) * (2 ^ (l + k) / (t + 1)) := by
+  have h := Nat.div_add_mod (2 ^ (l + k)) (t + 1)
+  have h2 : 2 ^ (l + k) % (t + 1) < t + 1 := Nat.mod_lt _ (Nat.succ_pos t)
+  omega
+
+/-- the bound before repo commit be33b70, `1 << ((l + k) // (t + 1))` (operator precedence), has only
+`(l+k)/(t+1)` bits: for `t ≥ 1` all `t + 1` masks together stay below `(t+1) · 2^((l+k)/2)`; the square of one
+sender's bound does not exceed the range `2^(l+k)` one sender should have covered alone for `t = 1` -/
+theorem pow_old_mask_small (l k t : ℕ) (ht : 1 ≤ t) :
+    2 ^ ((l + k) / (t + 1)) ≤ 2 ^ ((l + k) / 2) ∧ 2 ^ ((l + k) / 2) * 2 ^ ((l + k) / 2) ≤ 2 ^ (l + k) := by
+  constructor
+  · apply Nat.pow_le_pow_right (by norm_num)
+    exact Nat.div_le_div_left (by omega) (by norm_num)
+  · rw [← pow_add]
+    apply Nat.pow_le_pow_right (by norm_num)
+    omega
+
+/-- default types, 3 parties: the old masks of both senders together have fewer than 32 bits for a 16-bit exponent
+and k = 30 (needed: 46) -/
+example : 2 * 2 ^ ((16 + 30) / (1 + 1)) < 2 ^ 32 ∧ 2 ^ (16 + 30) - 1 ≤ (1 + 1) * (2 ^ (16 + 30) / (1 + 1)) :=
+  ⟨by norm_num, pow_mask_total 16 30 1⟩
+
+/-- `to_bits` over GF(2^n) (characteristic 2: addition is XOR): with a mask of ALL `n` bits the opened `a + r` is
+exactly uniform, whatever `a` is … -/
+theorem to_bits_bin_perfect (n a : ℕ) (ha : a < 2 ^ n) {x : ℕ} (hx : x < 2 ^ n) :
+    cnt (2 ^ n) (fun r => a ^^^ r) x = 1 := by
+  unfold cnt
+  have : ((range (2 ^ n)).filter fun r => a ^^^ r = x) = {a ^^^ x} := by
+    ext r
+    simp only [mem_filter, mem_range, mem_singleton]
+    constructor
+    · rintro ⟨_, rfl⟩
+      rw [← Nat.xor_assoc, Nat.xor_self, Nat.zero_xor]
+    · rintro rfl
+      refine ⟨Nat.xor_lt_two_pow ha hx, ?_⟩
+      rw [← Nat.xor_assoc, Nat.xor_self, Nat.zero_xor]
+  rw [this, card_singleton]
+
+/-- … whereas with a mask of only `l` bits (the code before repo commit ccbb4b9 for `to_bits(a, l)`, `l < n`) the
+bits of `a` above position `l` are opened as they are, for EVERY mask value -/
+theorem to_bits_bin_short_mask_leaks (l a r : ℕ) (hr : r < 2 ^ l) : (a ^^^ r) >>> l = a >>> l := by
+  rw [Nat.shiftRight_xor_distrib, Nat.shiftRight_eq_div_pow r l, Nat.div_eq_of_lt hr, Nat.xor_zero]
+
+example : ∀ r < 2 ^ 4, (0x35 ^^^ r) >>> 4 = 3 := by
+  intro r hr
+  rw [to_bits_bin_short_mask_leaks 4 0x35 r hr]
+  decide
+
+/-- `sincos`: the opened value divided by `n = 2^k'` is (number of full turns of the argument, below `2^(l-f)`) + R:
+with `R` drawn below `2^(k + l - f)` the table inequality holds; with `R` below `2^k` only (before repo commit
+b17c81b) it fails as soon as `l - f ≥ 1` -/
+theorem sincos_turns_mask (k l f : ℕ) (hfl : f ≤ l) :
+    2 * 2 ^ (l - f) * 2 ^ k ≤ 2 * 2 ^ (k + l - f) ∧ (1 ≤ l - f → 2 * 2 ^ k < 2 * 2 ^ (l - f) * 2 ^ k) := by
+  constructor
+  · rw [show k + l - f = l - f + k by omega, pow_add]
+    nlinarith
+  · intro h
+    have h2 : 2 ≤ 2 ^ (l - f) := by
+      calc 2 = 2 ^ 1 := by norm_num
+        _ ≤ 2 ^ (l - f) := Nat.pow_le_pow_right (by norm_num) h
+    have hpos : 0 < 2 ^ k := Nat.pos_of_ne_zero (pow_ne_zero _ (by norm_num))
+    nlinarith
 
 /-
 `view_indistinguishable_partial` (NOT proved — full statement of C18):
